@@ -299,6 +299,30 @@ def membership_checks(obs, pix, sky, w, case):
         obs.ok(int(dec2.sum()), 'membership-pixel-vs-sky')
 
 
+def results_independent(obs, src, results, what):
+    """converted regions share no mutable object with their source or with each other; editing one in place reaches no other."""
+    fps = [S.fingerprint(src)] + [S.fingerprint(r) for r in results]
+    objs = [src] + list(results)
+    ids = [S.mutable_ids(o) for o in objs]
+    for i in range(len(objs)):
+        for j in range(i + 1, len(objs)):
+            sh = set(ids[i]) & set(ids[j])
+            obs.check(not sh, 'conversion-shares-mutable-state', f'{what}: {type(objs[i]).__name__} and {type(objs[j]).__name__} share {[ids[i][k] for k in list(sh)[:3]]}',
+                      'history')
+    # edit the last result in place: list-valued entries, meta, visual
+    r = results[-1]
+    targets = [r] + ([r.region1, r.region2] if type(r).__name__.startswith('Compound') else [])
+    for t in targets:
+        for dd in (t.meta, t.visual):
+            for k, v in list(dict.items(dd)):
+                if isinstance(v, list):
+                    v.append('edited-in-place')
+        t.meta['label'] = 'edited-in-place'
+    for o, f in list(zip(objs, fps))[:-1]:
+        obs.check(S.fingerprint(o) == f, 'conversion-shares-mutable-state', f'{what}: editing the converted region in place changed a {type(o).__name__} it was derived from '
+                  '(or derived alongside)', 'history')
+
+
 def run_case(case, obs):
     w = S.build(case['wcs'])
     if case['lane'].startswith('pix2sky2pix'):
@@ -314,6 +338,7 @@ def run_case(case, obs):
         compare_regions(obs, pix_cmp, back, 'pixel->sky->pixel', w)
         obs.check(S.fingerprint(pix) == fp0, 'conversion-mutates-input', 'to_sky/to_pixel changed the input region', 'meta')
         membership_checks(obs, pix, sky, w, case)
+        results_independent(obs, pix, [sky, back, pix.to_sky(w)], 'pixel->sky->pixel')
     else:
         sky = build_sky(case['skyreg'], w)
         fp0 = S.fingerprint(sky)
